@@ -151,13 +151,13 @@ func (ex *Exec) sockDeliver(from *udpSock, toPort uint16, b *SliceV) {
 
 func init() {
 	regStub("(*"+modPath+"/conn.ListenConfig).ListenUDP", func(ex *Exec, fn *ssa.Function, args []Value) Value {
+		ex.sched.point()
 		n := ex.udpNet()
 		s := n.newSock(false)
 		ut := ex.namedType("net", "UDPConn")
 		s.obj = ex.newCells(ut, ex.zero(ut), fmt.Sprintf("udpconn%d", s.id))
 		n.byObj[s.obj] = s
 		info := ex.zero(fn.Signature.Results().At(1).Type())
-		ex.sched.point()
 		return TupleV{&Ptr{Obj: s.obj}, info, &IfaceV{}}
 	})
 	regStub("(*net.UDPConn).ReadMsgUDPAddrPort", func(ex *Exec, fn *ssa.Function, args []Value) Value {
@@ -209,6 +209,7 @@ func init() {
 	})
 	regStub("(*net.conn).SetReadDeadline", func(ex *Exec, fn *ssa.Function, args []Value) Value {
 		s := ex.sockOf(args[0])
+		ex.sched.point()
 		if s.closed {
 			return ex.globalValue("net", "ErrClosed")
 		}
@@ -218,16 +219,15 @@ func init() {
 		} else {
 			s.deadline = t
 		}
-		ex.sched.point()
 		return &IfaceV{}
 	})
 	udpConnClose = func(ex *Exec, fn *ssa.Function, args []Value) Value {
 		s := ex.sockOf(args[0])
+		ex.sched.point()
 		if s.closed {
 			return ex.globalValue("net", "ErrClosed")
 		}
 		s.closed = true
-		ex.sched.point()
 		return &IfaceV{}
 	}
 	regStub("(*net.conn).LocalAddr", func(ex *Exec, fn *ssa.Function, args []Value) Value {
@@ -269,8 +269,8 @@ func init() {
 		if !ok {
 			panic(unsupported("vfNetSend: symbolic port"))
 		}
-		ex.sockDeliver(s, uint16(port), args[2].(*SliceV))
 		ex.sched.point()
+		ex.sockDeliver(s, uint16(port), args[2].(*SliceV))
 		return nil
 	}
 	suffixStubs["vfNetRecv"] = func(ex *Exec, fn *ssa.Function, args []Value) Value {
@@ -324,6 +324,13 @@ func init() {
 		}
 		return BV(64, uint64(k))
 	}
+	suffixStubs["vfClockAdd"] = func(ex *Exec, fn *ssa.Function, args []Value) Value {
+		// like vfAdvance, but nobody is given a chance to run yet
+		ex.ghost["noSettle"] = true
+		suffixStubs["vfAdvance"](ex, fn, args)
+		ex.ghost["noSettle"] = false
+		return nil
+	}
 	suffixStubs["vfAdvance"] = func(ex *Exec, fn *ssa.Function, args []Value) Value {
 		// the harness clock moves forward by d nanoseconds; blocked reads whose deadline passed wake up
 		d, ok := args[0].(*Term).ConstVal()
@@ -340,7 +347,9 @@ func init() {
 		tot := int64(nc) + int64(d)
 		ex.ghost["clock.sec"] = BV(64, uint64(int64(sc)+tot/1000000000))
 		ex.ghost["clock.nsec"] = BV(64, uint64(tot%1000000000))
-		exactSuffixStub(ex, "vfSettle")
+		if ns, _ := ex.ghost["noSettle"].(bool); !ns {
+			exactSuffixStub(ex, "vfSettle")
+		}
 		return nil
 	}
 }
